@@ -48,7 +48,8 @@ EXTENDS Integers, Sequences, FiniteSets, TLC, Bitwise
 
 Range(s) == {s[i] : i \in 1 .. Len(s)}
 MinOf(S) == CHOOSE x \in S : \A y \in S : x <= y
-IsDistinct(s) == \A i, j \in 1 .. Len(s) : i # j => s[i] # s[j]
+\* no element twice (stated by counting: as many distinct elements as positions; linear for TLC also on lists of 65535 ids)
+IsDistinct(s) == Cardinality(Range(s)) = Len(s)
 \* 1-based position of the first occurrence, 0 when absent (Iterator::position)
 PositionOf(s, x) == LET P == {i \in 1 .. Len(s) : s[i] = x} IN IF P = {} THEN 0 ELSE MinOf(P)
 
